@@ -193,6 +193,63 @@ def run_names(case, ctx, mon):
     mon.nontrivial(True)
 
 
+def run_concurrent_saves(case, ctx, mon):
+    """Several threads of one process save their own sketches to their own files in one directory at the same time (a
+    checkpointing service): every file must load back to the sketch that was saved under that name."""
+    import shutil
+    import tempfile
+    import threading
+
+    kind = case["kind"]
+    n_thr, rounds = case["threads"], case["rounds"]
+    d = tempfile.mkdtemp(prefix="vmon-conc-", dir=os.environ.get("VERIF_TMP") or None)
+    try:
+        sketches = []
+        for i in range(n_thr):
+            cfg = dict(case["cfg"])
+            if i % 2 and kind in ("linear", "log16", "log8"):
+                cfg["width"] = cfg["width"] * 40  # files of very different sizes are written side by side
+            s_ = state.make(cfg)
+            s_.add(b"k-%d" % i, i + 1)
+            s_.add(b"shared", 10 * (i + 1))
+            sketches.append((s_, cfg))
+        errors = []
+        loader = {"hh": sk().HeavyHitters.load, "hll": sk().HyperLogLog.load}.get(kind, sk().countmin.load)
+        for r in range(rounds):
+            barrier = threading.Barrier(n_thr)
+            snaps = [state.snapshot(s_, kind) for s_, _cfg in sketches]
+
+            def work(i, r=r, barrier=barrier):
+                try:
+                    barrier.wait(timeout=60)
+                    sketches[i][0].save(os.path.join(d, f"sketch-{i}-{r}"))
+                except Exception as exc:  # noqa: BLE001
+                    errors.append(f"thread {i} round {r}: {type(exc).__name__}: {exc}")
+
+            ts = [threading.Thread(target=work, args=(i,)) for i in range(n_thr)]
+            for t in ts:
+                t.start()
+            for t in ts:
+                t.join(120)
+            mon.check(not errors, "concurrent-saves-to-different-files-all-succeed", errors=errors[:3], kind=kind)
+            for i in range(n_thr):
+                path = os.path.join(d, f"sketch-{i}-{r}.npz")
+                mon.check(os.path.exists(path), "save(name)-writes-name(.npz)", name=os.path.basename(path), files=sorted(os.listdir(d))[:12])
+                got = mon.api(loader, path)
+                dd = state.snap_diff(snaps[i], state.snapshot(got, kind))
+                mon.check(not dd, "file-saved-under-a-name-loads-back-to-that-sketch", name=os.path.basename(path), differs_in=dd, kind=kind,
+                          how="saved while other threads saved other sketches into the same directory")
+            for i, (s_, _cfg) in enumerate(sketches):
+                s_.add(b"round-%d" % r, 1 + i)  # the next round saves a changed sketch
+        stray = [f for f in os.listdir(d) if not f.startswith("sketch-")]
+        mon.check(not stray, "no-stray-file-left-in-the-directory", stray=stray[:5])
+        mon.count("concurrent_save_rounds", rounds)
+        mon.seen("concurrent_save_kind", kind)
+    finally:
+        shutil.rmtree(d, ignore_errors=True)
+    mon.nontrivial(True)
+
+
 def run_rowpair(case, ctx, mon):
     """A table in which one row holds a larger counter than row 0 (two keys that share a counter only in that row, counted in
     different sketches, then merged) must survive save/load bit for bit, for every loader."""
@@ -263,6 +320,9 @@ def gen_cases(ctx):
     for kind in state.ALL_KINDS:
         cfg = {"kind": kind, "width": 5, "depth": 2, "max_key_len": 6, "p": 8, "seed": 3}
         yield {"type": "names", "kind": kind, "cfg": cfg, "names": ["daily.2024-01-01", "daily.2024-01-02", "ckpt.0", "ckpt.1", "ckpt.10.npz", "plain", "v1.2.npz"]}
+    for kind in state.ALL_KINDS:
+        cfg = {"kind": kind, "width": 64, "depth": 3, "max_key_len": 6, "p": 9, "seed": 3}
+        yield {"type": "concurrent_saves", "kind": kind, "cfg": cfg, "threads": 4, "rounds": 6 if ctx.quick else 20}
     # scripted corner: heavy hitters of width 1 (phi defaults to exactly 1.0) must reload
     yield {"type": "roundtrip", "cfg": {"kind": "hh", "width": 1, "depth": 2, "max_key_len": 4}, "history": [["add", "6161", 5], ["add", "62", 2]],
            "n_records": 3, "generations": [{"shm": False, "via_module": False, "cont": [["add", "6161", 1]]},
@@ -281,6 +341,8 @@ def run_case(case, ctx, mon):
         run_names(case, ctx, mon)
     elif case["type"] == "dispatch":
         run_dispatch(case, ctx, mon)
+    elif case["type"] == "concurrent_saves":
+        run_concurrent_saves(case, ctx, mon)
     else:
         run_roundtrip(case, ctx, mon)
 
@@ -302,4 +364,5 @@ def floors(mon, ctx):
             mon.floor(f"loads of {kind} with shared_memory {shm}", mon.counters[f"loads:{kind}:shm={shm}"], 5)
         mon.floor(f"chains of depth >= 3 for {kind}", mon.counters[f"chains_depth3:{kind}"], 1)
     mon.floor("loads through module-level load()", mon.counters["loads_via_module_load"], 10)
+    mon.floor("kinds saved concurrently by several threads", len(mon.classes["concurrent_save_kind"]), 5)
     mon.floor("dispatch probes", mon.counters["dispatch_probes"], 9)
